@@ -15,6 +15,8 @@ use std::rc::Rc;
 
 pub struct C01 {
     pub max_size: usize,
+    /// no every-offset split enumeration (for the slow Miri layer)
+    pub light: bool,
 }
 
 pub const CHUNKS: [usize; 11] = [1, 2, 3, 7, 8, 9, 16, 17, 64, 1024, 16384];
@@ -108,7 +110,7 @@ impl Monitor for C01 {
             });
         }
         // two-part splits at every offset for small inputs (a refill boundary inside every token once)
-        if len <= 256 && rng.chance(1, 3) {
+        if len <= 256 && !self.light && rng.chance(1, 3) {
             for i in 1..len {
                 runs.push(Run {
                     policy: Policy::SplitAt(i),
